@@ -21,9 +21,9 @@ impl Tier {
     }
 }
 
-pub const NAMES: [&str; 22] = [
+pub const NAMES: [&str; 23] = [
     "c10map", "base", "c01", "c02", "c03", "c04", "c05", "c06", "c07", "c08", "c09", "c10", "c11", "c12",
-    "c13", "c14", "c15", "c16", "c17", "c18", "c19", "c20",
+    "c13", "c14", "c14inc", "c15", "c16", "c17", "c18", "c19", "c20",
 ];
 
 fn all_metrics() -> Vec<(u32, Metric)> {
@@ -129,7 +129,11 @@ pub fn base(tier: Tier) -> Profile {
         p_rebuild: 0.1,
         p_commit_before_build: 0.1,
         after_round: AfterRound { keep: 4, commit: 4, abort: 1 },
+        round_kinds: Vec::new(),
+        round_plans: Vec::new(),
         p_prepare: 0.0,
+        p_quiet_after_prepare: 0.0,
+        p_prepare_after_failed: 0.0,
         prepare_targets: all_metrics(),
 
         queries: Range(1, 4),
@@ -242,6 +246,10 @@ pub fn profile(name: &str, tier: Tier) -> Option<Profile> {
             p.queries = Range(0, 1);
             p.probes = 80;
             p.after_round = AfterRound { keep: 2, commit: 5, abort: 2 };
+            // "opened under another metric than it was built with": metric changes, also of indexes holding no item
+            p.p_prepare = 0.12;
+            p.p_quiet_after_prepare = 0.3;
+            p.empty_prepare = 0.25;
         }
         // indexes never affect each other
         "c07" => {
@@ -473,10 +481,47 @@ pub fn profile(name: &str, tier: Tier) -> Option<Profile> {
             p.read_rate = 0.0;
             p.families = vec![(6, Family::Generic), (1, Family::Duplicates), (1, Family::Ternary)];
         }
+        // the memory hint on INCREMENTAL builds: build, shrink (id holes below the surviving nodes), rebuild,
+        // grow by several memory-limited batches (>= 200 items each), rebuild; small buckets, so that
+        // there are single-item children and over-full buckets to re-split; 2-3 trees
+        "c14inc" => {
+            p.default_cases = if q { 12 } else { 120 };
+            p.dims = Range(2, 4);
+            p.poll_limit = Some(if q { 3_000_000 } else { 20_000_000 });
+            p.n_indexes = Const(1);
+            p.id_styles = vec![(4, IdStyle::Dense), (1, IdStyle::Sparse)];
+            p.families = vec![(8, Family::Generic), (1, Family::Duplicates)];
+            p.first_ops = OpMix { add: 1, overwrite: 0, append_ok: 0, append_bad: 0, del_present: 0, del_absent: 0, clear: 0, wrong_dim: 0 };
+            p.malformed_rate = 0.0;
+            p.p_cap_boundary = 0.0;
+            p.p_wipe_round = 0.0;
+            p.first_items = Range(80, 320);
+            p.rounds = Range(2, 4);
+            p.round_plans = vec![
+                // new buckets next to single-item children in one pass, visited again by the next pass
+                (3, vec![RoundKind::Grow(Range(420, 900))]),
+                // id holes below the surviving nodes, then one bucket over-filled many times over
+                (3, vec![RoundKind::Shrink(0.6, 0.97), RoundKind::GrowClustered(Range(450, 1500))]),
+                (2, vec![RoundKind::Shrink(0.3, 0.9), RoundKind::Grow(Range(250, 700)), RoundKind::Mixed]),
+            ];
+            p.updates = Range(20, 120);
+            p.ntrees = vec![(1, Some(Range(2, 3)))];
+            p.split = vec![(2, None), (4, Some(Range(1, 4))), (1, Some(Range(20, 60)))];
+            p.mem = vec![(1, MemChoice::Zero), (1, MemChoice::Page)];
+            p.p_skip_build = 0.0;
+            p.p_commit_before_build = 0.0;
+            p.after_round = AfterRound { keep: 1, commit: 3, abort: 0 };
+            p.read_rate = 0.0;
+            p.queries = Range(1, 2);
+            p.p_exhaustive = 1.0;
+        }
         // changing the metric keeps the items and forces a rebuild
         "c18" => {
             p.default_cases = if q { 196 } else { 3920 };
             p.p_prepare = 0.6;
+            p.p_quiet_after_prepare = 0.4;
+            p.p_cancel = 0.12;
+            p.p_prepare_after_failed = 0.7;
             p.empty_prepare = 0.3;
             p.rounds = Range(2, 5);
             p.n_indexes = Mix(vec![(1, Const(1)), (2, Const(2)), (1, Const(3))]);
